@@ -508,4 +508,26 @@ def run(F, rep):
     from engines import rule_accumulators
     rule_accumulators(F, rep, 'C02.A1', lambda g: g.file.endswith('/printer.cpp'), 1, 'printer.cpp', 'whether a component pair was already printed must not depend on the last pair compared (a connection would be printed twice or not at all)')
 
+    # ------------------------------------------------------------------ T: the 1.x transformation leaves 2.0 documents alone
+    rep.rule('C02.T1', 'the helpers that transform CellML 1.x content (unit-name respelling, 1.x namespace handling, units lifted out of components, 1.x encapsulation relationships) are called in parser.cpp only under the 1.x mode '
+                       '(mParsing1XVersion / isCellml1XElement): applied to a 2.0 document they change what was written (a 2.0 model may define its own units called "meter" or "liter")')
+    ONLY_1X = {'convertNonSiUnits': 'respells meter/liter: a 2.0 model may define units of those names',
+               'removeCellml1XNamespaces': 'rewrites namespace declarations of math', 'attributesWithCellml1XNamespace': 'collects 1.x-namespaced attributes for rewriting',
+               'loadUnitsFromComponent': 'lifts units out of 1.x components', 'isEncapsulationRelationship': '1.x <group> relationship_ref', 'nodesCellMl1XVersion': 'names the 1.x version in messages'}
+    n_t = 0
+    seen_t = set()
+    for g in F.funcs.values():
+        if not g.file.endswith('/parser.cpp'):
+            continue
+        for c in g.walk():
+            if c.get('k') == 'Call' and not c.get('opc') and c.get('fn') in ONLY_1X:
+                n_t += 1
+                seen_t.add(c['fn'])
+                rc = ff(g).rendered_conds_at(c) or set()
+                ok = any(t and ('mParsing1XVersion' in cnd or 'isCellml1XElement' in cnd) and not cnd.replace(' ', '').startswith('!') for cnd, t in rc)
+                rep.check(ok, 'C02.T1', '%s|%s' % (g.short.split('::')[-1], c['fn']), g.where(c), '`%s` (%s) runs whatever the version of the document: CellML 2.0 content is rewritten on reading, so print -> parse no longer preserves it'
+                          % (render(c)[:50], ONLY_1X[c['fn']]), 'under the 1.x mode')
+    if n_t < 6 or len(seen_t) < 5:
+        raise AnalysisBroken('C02.T1: 1.x transformation helpers called at %d sites (%s); 8 sites of 6 helpers confirmed' % (n_t, sorted(seen_t)))
+
 
